@@ -538,6 +538,8 @@ MUTANTS += [
     ('existing-freshlen-buf', 'expect', "        freshlen = before_len\n", "        freshlen = buf_len\n", 'D6'),
 ]
 PRESERVING = [
+    ('rest-via-setter', 'expect', '            spawn._buffer = spawn.buffer_type()\n            spawn._buffer.write(window[searcher.end:])\n            before = spawn._before.getvalue()\n            spawn.before = before[\n                0:len(before) - (len(window) - searcher.start)]\n            spawn._before = spawn.buffer_type()\n            spawn._before.write(window[searcher.end:])\n            spawn.after = window[searcher.start:searcher.end]\n', '            before = spawn._before.getvalue()\n            spawn.before = before[\n                0:len(before) - (len(window) - searcher.start)]\n            spawn.after = window[searcher.start:searcher.end]\n            spawn.buffer = window[searcher.end:]\n'),
+    ('clamp-min', 'expect', '        if freshlen > len(window):\n            freshlen = len(window)\n', '        freshlen = min(len(window), freshlen)\n'),
     ('str-gt-flip', 'expect', "n < first_match):\n                first_match = n\n                best_index, best_match", "first_match > n):\n                first_match = n\n                best_index, best_match"),
     ('re-early-continue-not', 'expect', "            if match is None:\n                continue\n            n = match.start()", "            if not (match is not None):\n                continue\n            n = match.start()"),
     ('str-valid-ne', 'expect', "            if n >= 0 and (first_match is None", "            if n != -1 and (first_match is None"),
